@@ -17,7 +17,7 @@ import (
 var c13Versions = []uint64{1, 2, 3, 7, 255, 256, 65535, 65536, 1<<31 - 1, 1 << 31, 1<<32 - 1, 1 << 32, 1<<62 + 5, 1<<63 - 2, 1<<63 - 1, 1 << 63, 1<<63 + 1, 1<<63 + 4, 1<<64 - 2, 1<<64 - 1}
 
 func TestC13Relay(t *testing.T) {
-	vlib.SetRule("C13", "TestC13Relay", "a real node holds the state of 1-3 other nodes whose entries carry drawn versions from the whole uint64 range (integer-width edges 2^8, 2^16, 2^31, 2^32, 2^63, 2^64-1 and small numbers mixed); digests asking for everything above a drawn version are handled by the real packet handler under a drawn packet limit; oracle on every emitted delta: within the limit, decodes, per node strictly increasing versions all above the asked version, and exactly the first entries (in version order) the asker is missing - whole entries only; non-trivial = a node's versions lie on both sides of 2^63")
+	vlib.SetRule("C13", "TestC13Relay", "a real node holds the state of 1-3 other nodes whose entries carry drawn versions from the whole uint64 range (integer-width edges 2^8, 2^16, 2^31, 2^32, 2^63, 2^64-1 and small numbers mixed; in a fifth of the cases more entries than the packet limit has bytes); digests asking for everything above a drawn version are handled by the real packet handler under a drawn packet limit; oracle on every emitted delta: within the limit, decodes, per node strictly increasing versions all above the asked version, and exactly the first entries (in version order) the asker is missing - whole entries only; non-trivial = a node's versions lie on both sides of 2^63")
 	vlib.Run(t, "C13", func(c *vlib.Case) {
 		pc := &pktCap{}
 		max := []int{1400, 400, 220, 160}[c.Pick("maxPacket", 4)]
@@ -32,8 +32,17 @@ func TestC13Relay(t *testing.T) {
 		for i, k := 0, c.Int("owners", 1, 3); i < k; i++ {
 			o := owner{id: fmt.Sprintf("o%d", i), addr: fmt.Sprintf("127.0.0.1:%d", 7100+i)}
 			picked := map[uint64]bool{}
-			for j, m := 0, c.Int("entries", 1, 7); j < m; j++ {
-				picked[c13Versions[c.Pick("version", len(c13Versions))]] = true
+			if c.Chance("manyEntries", 1, 5) {
+				// more entries outstanding than the packet has bytes: the entry count in a
+				// delta header is what the sender WANTED to send, not what fitted
+				for j, m := 0, c.Int("entryCount", max-20, max+60); j < m; j++ {
+					picked[uint64(j+1)] = true
+				}
+				c.Class("more-entries-than-packet-bytes")
+			} else {
+				for j, m := 0, c.Int("entries", 1, 7); j < m; j++ {
+					picked[c13Versions[c.Pick("version", len(c13Versions))]] = true
+				}
 			}
 			var vs []uint64
 			lo, hi := false, false
@@ -60,7 +69,7 @@ func TestC13Relay(t *testing.T) {
 				}
 			}
 			owners = append(owners, o)
-			c.Stepf("%s holds %s at versions %v", "relay", o.id, vs)
+			c.Stepf("relay holds %s at %d versions (first %v)", o.id, len(vs), vs[:min(len(vs), 8)])
 		}
 		if straddle {
 			c.NonTrivial()
